@@ -31,7 +31,7 @@ const Spec specs[] = {
    {"substs",           {   2,   2,   2,  0,   4,   0,   0,   0,  0,   0,   0,   0,   1,   0,  30,   0},
     {{"MAPPING", 8}, {"LAMBDA", 2}, {"REQUIRES", 2}, {"PLIST_ADD", 25}, {"SUBST_BIND", 60}, {"INSTANTIATION", 3}}},
    {"printable",        {   3,   3,   6,  4,  10,   8,  14,   6,  0,   0,   0,   0,   2,   5,   0,   0},
-    {{"LOCATE", 10}, {"JUNK", 4}, {"UNARY", 14}, {"BINARY", 20}, {"DECL", 30}, {"DECL_FILL", 12}, {"ADD_STMT", 14}, {"TOKEN", 0}, {"ANNOTATION", 0}, {"COMMENT", 0},
+    {{"LOCATE", 16}, {"JUNK", 4}, {"UNARY", 14}, {"BINARY", 20}, {"DECL", 150}, {"TOR", 1}, {"AUTO", 1}, {"DECLTYPE", 1}, {"GUIDE_NAME", 0}, {"DECL_FILL", 12}, {"ADD_STMT", 14}, {"TOKEN", 0}, {"ANNOTATION", 0}, {"COMMENT", 0},
      {"XLIST", 3}, {"XLIST_PUSH", 4}, {"CALL", 4}, {"ENUMERATOR", 6}, {"BASE", 3}, {"UDT_NAME", 8}, {"BLOCK", 8}, {"MAP_FILL", 6}, {"MAPPING", 5},
      {"PLIST_ADD", 8}, {"CAPTURE", 0}, {"SBIND_PUSH", 0}, {"USING_PUSH", 0}, {"PRAGMA_TOKEN", 0}, {"REQ_PUSH", 0}, {"STMT_ATTR", 0}}},
    {"printer",          {   3,   3,   5,  3,   9,   7,   8,   5,  2,   1,   0,   1,   2,   6,   1,   0},
